@@ -252,8 +252,23 @@ class C09(PropBase):
         layout = common.gen_layout(rng)
         layout["upper_uuid"] = False
         text = common.render_journal(txns, layout)
-        return {"op": "audit", "kind": kind, "cfg": cfg, "hash": alg, "txns": txns, "text": text,
+        case = {"op": "audit", "kind": kind, "cfg": cfg, "hash": alg, "txns": txns, "text": text,
                 "filter": ({"txnFilter": f} if f is not None else None), "selectors": sels, "reports": REPORTS}
+        if len(txns) >= 2 and rng.random() < 0.35:
+            # the same journal as several files (paths_to_txns): the set - and a duplicate - is a matter of the selected
+            # transactions, wherever they were read from; two transactions sharing a uuid are put into different files
+            k = rng.choice([2, 2, 3])
+            part = [rng.randrange(k) for _ in txns]
+            if dup_idx is not None and part[dup_idx[0]] == part[dup_idx[1]]:
+                part[dup_idx[1]] = (part[dup_idx[0]] + 1) % k
+            files = []
+            for i in range(k):
+                sub = [t for t, q in zip(txns, part) if q == i]
+                if sub:
+                    files.append({"name": "d%d/f%d.txn" % (i % 2, i), "text": common.render_journal(sub, layout)})
+            case["files"] = files
+            case["kind"] = kind + "+files"
+        return case
 
     def mk_hash_case(self, rng, alg, k):
         msgs = []
@@ -283,7 +298,7 @@ class C09(PropBase):
     def impl_case(self, case):
         if case["op"] == "hash":
             return {k: v for k, v in case.items() if k != "kind"}
-        return {k: case[k] for k in ("op", "cfg", "text", "filter", "reports")}
+        return {k: case[k] for k in ("op", "cfg", "text", "filter", "reports", "files") if k in case}
 
     def model_case(self, case):
         if case["op"] == "hash":
